@@ -37,6 +37,7 @@ type LoopContract struct {
 	Ordinal    int
 	Invariants []*Clause
 	Decreases  *Clause
+	NoTermination bool // `decreases *`: termination of this loop is not claimed
 	Decreases2 *Clause // second component of a lexicographic measure
 	ExitAsserts []*Clause
 	Line       int
@@ -60,6 +61,7 @@ type Contract struct {
 	Loops    map[int]*LoopContract
 	Encoder  bool // all narrowing conversions are lossless obligations
 	NoPanic  bool
+	Covers   []string // source snippets that must be reachable
 	MayPanic bool // explicit panic(...) statements are the documented loud refusal
 	Bounded  int
 	File     string
@@ -100,7 +102,7 @@ type ContractSet struct {
 	Assumes   []string // textual list of assumed contracts (for evidence)
 }
 
-var keywordRe = regexp.MustCompile(`^(func|assume|lemma|ghost|pred|spec|requires|ensures|modifies|panics_if|let|loop|invariant|decreases|exit_assert|props|encoder|nopanic|may_panic|return_assert|bounded|assert|opt)\b`)
+var keywordRe = regexp.MustCompile(`^(package|func|assume|lemma|ghost|pred|spec|requires|ensures|modifies|panics_if|let|loop|invariant|decreases|exit_assert|props|encoder|nopanic|may_panic|return_assert|cover|bounded|assert|opt)\b`)
 
 // readContractFile extracts //@ lines and parses them.
 func (cs *ContractSet) readContractFile(path, pkgPath string) error {
@@ -150,6 +152,11 @@ func (cs *ContractSet) readContractFile(path, pkgPath string) error {
 				return nil, fmt.Errorf("%s:%d: %v (in %q)", path, l.n, err, text)
 			}
 			return &Clause{Text: text, Expr: e, File: path, Line: l.n}, nil
+		}
+		switch kw {
+		case "package":
+			pkgPath = strings.TrimSpace(rest)
+			continue
 		}
 		switch kw {
 		case "func", "assume", "lemma":
@@ -249,6 +256,8 @@ func (cs *ContractSet) readContractFile(path, pkgPath string) error {
 					}
 					cur.Modifies = append(cur.Modifies, mt)
 				}
+			case "cover":
+				cur.Covers = append(cur.Covers, strings.Trim(strings.TrimSpace(rest), "\""))
 			case "encoder":
 				cur.Encoder = true
 			case "nopanic":
@@ -293,6 +302,10 @@ func (cs *ContractSet) readContractFile(path, pkgPath string) error {
 			case "decreases":
 				if curLoop == nil {
 					return fmt.Errorf("%s:%d: decreases outside loop", path, l.n)
+				}
+				if strings.TrimSpace(rest) == "*" {
+					curLoop.NoTermination = true
+					break
 				}
 				parts := splitTop(rest, ',')
 				c, err := mk(strings.TrimSpace(parts[0]))
